@@ -181,7 +181,7 @@ CASES = {
     "C01": (50000, 900000), "C02": (50000, 900000), "C04": (50000, 900000), "C06": (45000, 800000),
     "C07": (50000, 900000), "C10": (45000, 800000), "C13": (25000, 450000), "C15": (40000, 700000),
     "C16": (50000, 900000), "C19": (30000, 500000), "C20": (12000, 200000), "C03": (10000, 180000),
-    "C05": (9000, 160000), "C09": (10000, 180000), "C14": (9000, 160000), "C08": (800, 14000),
+    "C05": (9000, 160000), "C09": (10000, 180000), "C14": (9000, 160000), "C08": (600, 10000),
     "C17": (9000, 160000), "C11": (5500, 100000), "C18": (5000, 90000),
 }
 for _p, (_q, _t) in CASES.items():
